@@ -212,6 +212,10 @@ def run(pid, tier, replay_file=None):
                               f"{ob.get('parse')} {ob.get('strip')} {ob.get('np')}",
                               dict(state=st, observed=ob, tag=tag))
 
+    ext_cov = {}
+    if pid == "C10" and not replay_file:
+        import checks_extreme
+        ext_cov = checks_extreme.collect(rep, tier)
     refs_cov = {}
     if pid == "C20" and not replay_file:
         import checks_refs
@@ -267,6 +271,11 @@ def run(pid, tier, replay_file=None):
         drift_events_total=len(ev_index),
         model_switches="see spec/Elements.tla, spec/Parser.tla (DeepBool, PlaceholderBySource, ...)",
     )
+    if ext_cov:
+        coverage["extremes"] = ext_cov
+        coverage["states"] += ext_cov["extreme_states"] + ext_cov["extreme_tlc_states"]
+        coverage["transitions"] += ext_cov["extreme_cases"]
+        coverage["traces_validated_against_impl"] += ext_cov["extreme_cases"]
     if refs_cov:
         coverage["reference_graphs"] = refs_cov
         coverage["states"] += refs_cov["states"]
